@@ -84,7 +84,10 @@ def model(records, timeout, t_create, slack, ctx, tag):
                 break
             if open_ > 0:
                 first = min(oldest_open.values())
-                cls = "stale-deadline" if last_act < first else "activity-since-hook-start"
+                # watch() sleeps at most `timeout` from an instant at which no hook was pending; if it only fails
+                # to re-check the hook count after that sleep, every pending hook is younger than timeout+slack.
+                # A hook pending for longer than that being interrupted is a different failure (disarm counting).
+                cls = "hook-started-during-final-sleep" if t - first <= timeout + slack else "hook-pending-longer-than-timeout"
                 at_deadline = True
                 ctx.fail("fired-during-hook:%s:%s" % (cls, tag),
                          "timeout callback at %r with %d hook(s) pending (oldest since %r), last activity %r, timeout %r"
@@ -208,19 +211,22 @@ def check_case(case, ctx):
 
 
 # ------------------------------------------------------------------------------------------------ generator
-_op = st.one_of(
-    st.tuples(st.just("act"), st.integers(0, 24), st.integers(0, 3), st.just(0), st.just(0), st.just(False)),
-    st.tuples(st.just("hook"), st.integers(0, 24), st.integers(0, 3), st.integers(0, 16), st.integers(0, 3), st.booleans()),
-    st.tuples(st.just("hook"), st.integers(0, 24), st.integers(0, 3), st.integers(0, 16), st.integers(0, 3), st.booleans()),
-)
-_wd = st.fixed_dictionaries({
-    "h": st.just("wd"),
-    "timeout": st.integers(1, 20),
-    "overshoots": st.lists(st.sampled_from([0, 0, 1, 1024, 2 ** 18]), max_size=8),
-    "ops": st.lists(_op, max_size=12),
-})
+def decode_wd(data):
+    t = simhandler.Tape(data)
+    timeout = 1 + t.below(20)
+    overshoots = [t.pick(simhandler._OVERSHOOT) for _ in range(t.below(9))]
+    ops = []
+    for _ in range(t.below(13)):
+        m = t.byte()
+        te, tj = t.below(25), t.below(4)
+        if m % 3 == 0:
+            ops.append(["act", te, tj, 0, 0, False])
+        else:
+            ops.append(["hook", te, tj, t.below(17), t.below(4), bool(m & 64)])
+    return {"h": "wd", "timeout": timeout, "overshoots": overshoots, "ops": ops}
 
 
 def strategy(ctx):
-    handler = st.fixed_dictionaries({"h": st.just("handler"), "plan": simhandler.plan_strategy(max_timeout=3, max_conn=4)})
-    return st.one_of(_wd, _wd, _wd, handler)
+    wd = st.binary(min_size=64, max_size=64).map(decode_wd)
+    handler = simhandler.plan_strategy(max_timeout=3, max_conn=4, size=200).map(lambda p: {"h": "handler", "plan": p})
+    return st.one_of(wd, wd, wd, handler)
